@@ -22,6 +22,8 @@ EXPLANATION = (
     "first-hop reports become markers built from that report's own AS and interface fields (egress vs ingress not swapped).  "
     "(PEN-link) link-failure SCMP errors carry a strictly negative penalty constant.  NOT decided (value clauses): the size of penalties, "
     "the swap threshold, that the re-ranking actually prefers a path avoiding the interface, freshness windows.")
+EXPLANATION_ADD5 = ' Round-5 additions: (FLOW-update) ReliabilityScore::update stores score := clamp(self.score(now) + penalty) and last_updated := now, the parameter itself; (GS-precheck) every stateless pre-check passed to matches_path_checked is the constant true or reads the hop list — a pre-check that can say no from the path endpoints alone skips paths crossing the reported AS in transit.'
+EXPLANATION = EXPLANATION + EXPLANATION_ADD5
 RESIDUAL = [
     "whether the re-evaluation picks a path that avoids the failed interface (scores, thresholds: values)",
     "that traffic does not return while the penalty is fresh and does return after decay (numeric half-life behaviour)",
